@@ -1,7 +1,10 @@
 """C14 part B - no public device / codec / DSP function modifies gv or the sample data of its
 arguments; results depend only on (arguments, gv, numpy's global random state); outputs never
 alias input buffers.  Exhaustive enumeration of ORDERED call sequences over a menu of public
-calls on SHARED canned inputs with a differential oracle (output inside a sequence == solo output)."""
+calls on SHARED canned inputs with a differential oracle (output inside a sequence == solo output).
+Parts `heap` / `oddgrid`: grids with an odd number of samples per slot, entries whose waveforms are built on
+the ambient grid, and a deliberately dirtied heap (freed buffers of every small size filled with nan, then
+with 1e300) before the calls: a result that depends on the fill pattern reads uninitialised memory."""
 from __future__ import annotations
 import hashlib
 import itertools
@@ -16,6 +19,11 @@ GV = dict(sps=8, R=1e9)
 GVS = [GV, dict(sps=8, R=2e9), dict(sps=16, R=1e9, wavelength=1310e-9),
        dict(sps=8, R=1e9, N=64)]     # a slot count in force: gv.t / gv.w exist (only C14 itself runs this one, see NG_HISTORY)
 NG_HISTORY = 3                       # the call-history parts of the other properties switch between the first three grids
+NG_MAIN = len(GVS)                   # the sequence products of part B switch between these four
+# grids with an ODD number of samples per slot (every grid above has an even one): templates of sps samples that are built in
+# two halves, centre samples, sps//2 instants.  Only the `heap` and `oddgrid` parts of C14 itself run them (indices >= NG_MAIN).
+GVS_ODD = [dict(sps=3, R=1e9), dict(sps=5, R=1e9), dict(sps=7, R=2e9), dict(sps=9, R=1e9, wavelength=1310e-9), dict(sps=15, R=1e9)]
+GVS = GVS + GVS_ODD
 _CACHE = {}
 
 
@@ -411,6 +419,53 @@ def harden_menu():
     ]
 
 
+def _gridwave(I, nb=32, ripple=0.05):
+    """NRZ waveform of the first nb shared bits ON THE GRID NOW IN FORCE (harness-side numpy only): nb*gv.sps samples, so that
+    the slot-structured functions (SAMPLER, SDD, DSP, SYNC, GET_EYE) get a whole number of slots whatever sps is"""
+    from opticomlib.typing import gv
+    w = np.kron(I['bits'][:nb], np.ones(gv.sps))
+    return 0.2 + w + ripple * np.sin(0.37 * np.arange(w.size))
+
+
+def grid_menu():
+    """entries whose waveforms are built on the ambient grid (prefix 'grid:'): every pulse shape of DAC and the other functions
+    that work slot by slot with templates / instants derived from gv.sps.  They are meaningful under ANY samples-per-slot value,
+    in particular the odd ones of GVS_ODD (sps//2 != sps/2: centre samples, two-halves templates).  They are not part of the
+    sequence products of the main menu (run_part_b uses the first C['nmain'] entries there); the `heap` and `oddgrid` parts run them."""
+    from opticomlib import devices as d, ppm, ook, lab
+    from opticomlib.typing import gv, electrical_signal
+    es = lambda I, nb=32: electrical_signal(_gridwave(I, nb))
+    return [
+        ('grid:DAC.nrz', lambda I: d.DAC(I['tx32'], Vout=2.0, bias=0.5), True),
+        ('grid:DAC.rz', lambda I: d.DAC(I['tx32'], Vout=2.0, bias=0.5, pulse_shape='rz'), True),
+        ('grid:DAC.RZ.nd', lambda I: d.DAC(I['bits'], pulse_shape='RZ'), True),
+        ('grid:DAC.rect', lambda I: d.DAC(I['bits_list'], Vout=3.0, pulse_shape='rect'), True),
+        ('grid:DAC.gauss', lambda I: d.DAC(I['tx32'], pulse_shape='gaussian'), True),                         # T = sps, m = 1
+        ('grid:DAC.gauss.T', lambda I: d.DAC(I['tx32'], Vout=1.5, pulse_shape='gaussian', T=gv.sps // 2 + 1, m=3, c=0.5), True),
+        ('grid:DAC.gauss.2T', lambda I: d.DAC(I['bits_str'], pulse_shape='GAUSSIAN', T=2 * gv.sps, m=2), True),
+        ('grid:DAC.bw', lambda I: d.DAC(I['tx32'], Vout=1.0, BW=0.75 * gv.R), True),
+        ('grid:DAC.rz.bw', lambda I: d.DAC(I['tx32'], pulse_shape='rz', BW=gv.R), True),
+        ('grid:SAMPLER', lambda I: (d.SAMPLER(es(I), 0), d.SAMPLER(es(I), gv.sps // 2), d.SAMPLER(es(I), gv.sps - 1)), True),
+        ('grid:SDD', lambda I: (ppm.SDD(es(I), 4), ppm.SDD(_gridwave(I, 64), 8)), True),
+        ('grid:ppm.DSP.soft', lambda I: ppm.DSP(es(I), 4, 'soft'), True),
+        ('grid:ppm.DSP.hard.th', lambda I: ppm.DSP(es(I), 4, 'hard', threshold=0.7), False),
+        ('grid:SYNC', lambda I: lab.SYNC(electrical_signal(np.roll(np.tile(_gridwave(I, 32), 3), 3 * gv.sps + 2)), I['tx32']), True),
+        ('grid:esig.grid', lambda I: (es(I).sps(), es(I).fs(), es(I).dt(), es(I).t(), es(I).w(), es(I)('w').power()), True),
+        ('grid:LPF.ADC', lambda I: (d.LPF(es(I), 0.7 * gv.R), d.ADC(es(I), n=4), d.ADC(es(I), fs=gv.R, n=3)), True),
+        ('grid:chain:DAC.rz-LPF-SAMPLER-ADC', lambda I: pipe(I['tx32'], lambda x: d.DAC(x, Vout=2.0, pulse_shape='rz'), lambda x: d.LPF(x, 0.8 * gv.R),
+                                                             lambda x: d.SAMPLER(x, gv.sps // 2), lambda x: d.ADC(x, n=4)), True),
+        ('grid:chain:PPM.rz', lambda I: pipe(I['tx32'], lambda x: ppm.PPM_ENCODER(x, 4), lambda x: d.DAC(x, Vout=1.0, pulse_shape='rz'), lambda x: ppm.SDD(x, 4),
+                                             lambda x: ppm.HDD(x, 4), lambda x: ppm.PPM_DECODER(x, 4), lambda x: ppm.BER_analizer('counter', Tx=I['tx32'], Rx=x)), False),
+        ('grid:chain:DAC.gauss-MZM-PD', lambda I: pipe(I['tx32'], lambda x: d.DAC(x, Vout=2.0, pulse_shape='gaussian', m=2),
+                                                       lambda x: d.MZM(I['cw'][:x.len()], x, bias=-1.0, Vpi=2.0), lambda x: d.PD(x, 0.75 * gv.R, include_noise='ase-only'),
+                                                       lambda x: d.SAMPLER(x, gv.sps // 2)), True),
+        ('grid:GET_EYE', lambda I: d.GET_EYE(electrical_signal(np.convolve(_gridwave(I, 64), np.ones(3) / 3, mode='same')), sps_resamp=32), False),
+    ]
+
+
+GRID_HEAVY = {'grid:GET_EYE'}
+
+
 def binary_seq_roundtrip(I):
     from opticomlib.typing import binary_sequence, electrical_signal, optical_signal
     return (binary_sequence(I['bits']), binary_sequence(I['bits_str2']), binary_sequence(I['bits_list']), electrical_signal(I['vnd']), optical_signal(I['vnd'], n_pol=2),
@@ -449,6 +504,10 @@ def setup():
         protect(I)
         _CACHE['I'] = I
         _CACHE['menu'] = menu()
+        _CACHE['nmain'] = len(_CACHE['menu'])          # the sequence products of part B run over these; the 'grid:' entries appended below match no HISTORY_GROUPS prefix
+        gm = grid_menu()
+        assert all(nm.startswith('grid:') for nm, f, det in gm) and len({nm for nm, f, det in gm}) == len(gm)
+        _CACHE['menu'] = _CACHE['menu'] + [(nm, f, det, nm in GRID_HEAVY) for nm, f, det in gm]
         _CACHE['gv0'] = {}
         for g in range(len(GVS)):
             gv_reset(**GVS[g])
@@ -500,6 +559,70 @@ def poison(out):
             pass
 
 
+# ------------------------------------------------------------------ deliberately dirty heap
+# "Its result depends only on its arguments, the current gv and numpy's global random state": a result must not depend on what the
+# allocator hands out.  np.empty / malloc return memory that earlier (freed) buffers of the same size left behind - numpy keeps up
+# to 7 freed data blocks per byte size below 1 KiB in its own free lists and gives the most recently freed one to the next
+# request of that size, glibc does the same for its bins.  A function that reads a sample it never wrote (a template built in
+# two halves that do not meet, a work array allocated one element too long, a padding tail) therefore returns "whatever was
+# computed before".  dirty_heap() makes that history explicit and deterministic: it allocates, fills and frees buffers of every
+# small size, so that every small block the library obtains afterwards is filled with a known pattern.  Only freed memory is
+# written: nothing a function may legitimately read is touched, so a library that initialises what it reads computes exactly
+# the same bytes with and without the dirtying and under either pattern.
+HEAP_PATTERNS = (('nan', float('nan'), 0xFF), ('1e300', 1e300, 0x5A))     # (name, float64 fill, byte fill); 8 bytes 0xFF are a nan too
+_HEAP_BYTES = [b for b in range(1, 129) if b % 8]                          # sizes that are no multiple of 8: bool / uint8 / int16 / float32 templates
+_HEAP_KEEP = 8                                                             # numpy caches 7 blocks per size; the 8th goes back to malloc's own list
+
+
+def dirty_heap(pat, sps=8):
+    """allocate - fill - free: float64 buffers of k = 1..128 elements (every multiple of 8 bytes up to numpy's small-block limit of
+    1 KiB, i.e. also complex128 templates up to 64 and float32 / int32 ones of even length), byte buffers of every other size up
+    to 128 bytes, and a ladder of record-sized buffers (whole numbers of slots of `sps` samples, real and complex) that go
+    through malloc's bins.  _HEAP_KEEP buffers per small size are alive at the same time and released together."""
+    name, fv, bv = HEAP_PATTERNS[pat]
+    empty = np.empty
+    for k in range(1, 129):
+        bufs = [empty(k) for _ in range(_HEAP_KEEP)]
+        for a in bufs:
+            a.fill(fv)
+        del bufs, a
+    for b in _HEAP_BYTES:
+        bufs = [empty(b, np.uint8) for _ in range(_HEAP_KEEP)]
+        for a in bufs:
+            a.fill(bv)
+        del bufs, a
+    big = [np.full(m * c, fv) for m in sorted({sps * nb for nb in (16, 32, 50, 64)} | {192, 256, 512}) for c in (1, 2) for _ in range(2)]
+    del big
+
+
+def heap_case(case):
+    """case = (menu index, grid index, seed, table): the call is made once after each dirtying pattern of HEAP_PATTERNS (same
+    grid, same numpy seed, same arguments).  The two outputs must be identical (`uninitialised-memory:<entry>` otherwise: the
+    only thing that differs between the two calls is the content of freed memory) and equal to the output of the same call made
+    first in a fresh process (`order-dependence:<entry>`); purity / aliasing as after every call of part B."""
+    i, g, seed, table = case
+    C = setup()
+    name = C['menu'][i][0]
+    sps = GVS[g]['sps']
+    viol = []
+    got = []
+    for pat in range(len(HEAP_PATTERNS)):
+        dirty_heap(pat, sps)
+        out = call(i, seed, g)
+        got.append(dig(out))
+        check_after(name, out, viol, f'heap {name}@gv{g} after freed buffers filled with {HEAP_PATTERNS[pat][0]}', g)
+        poison(out)
+        del out
+    where = f'{name}@gv{g} {GVS[g]} (seed {seed})'
+    if len(set(got)) > 1:
+        viol.append((f'uninitialised-memory:{name}', f'{where}: the output depends on what freed heap buffers contain (filled with '
+                     f'{HEAP_PATTERNS[0][0]} before one call, with {HEAP_PATTERNS[1][0]} before the other; same arguments, grid and numpy seed): the function reads memory it did not initialise'))
+    elif got[0] != table[(i, g, seed)]:
+        viol.append((f'order-dependence:{name}', f'{where}: output on a dirtied heap differs from the output of the same call made first in a fresh interpreter'))
+    gv_reset(**GV)
+    return res(viol=viol, obs=tuple(got), nontrivial=(name, g), stats={'calls': len(got), 'heap_dirtyings': len(got)})
+
+
 def _fresh_one(req):
     """runs in a process forked from the pristine template (see fresh_table): its first library call after the
     common set-up is menu entry i under grid g"""
@@ -531,14 +654,17 @@ def fresh_solo_main(argv):
     print('TABLE ' + json.dumps([[i, g, out] for i, g, out in res_]))
 
 
-def fresh_table(n, seeds, G=None):
-    """digests of every menu entry (n = count, or an explicit list of menu indices) under every grid, each computed in a
-    process whose first library call it is (children forked one-per-request from a pristine template process)"""
+def fresh_table(n, seeds, G=None, pairs=None):
+    """digests of every menu entry (n = count, or an explicit list of menu indices) under every grid (the first G of GVS; or an
+    explicit list `pairs` of (menu index, grid index)), each computed in a process whose first library call it is (children
+    forked one-per-request from a pristine template process)"""
     import json, os, subprocess, sys
-    idx = list(range(n)) if isinstance(n, int) else list(n)
-    G = len(GVS) if G is None else G
     env = dict(os.environ, OMP_NUM_THREADS='1', OPENBLAS_NUM_THREADS='1', MPLBACKEND='Agg', PYTHONHASHSEED='0')
-    reqs = [[i, g, list(seeds)] for i in idx for g in range(G)]
+    if pairs is None:
+        idx = list(range(n)) if isinstance(n, int) else list(n)
+        G = NG_MAIN if G is None else G
+        pairs = [(i, g) for i in idx for g in range(G)]
+    reqs = [[i, g, list(seeds)] for i, g in pairs]
     p = subprocess.run([sys.executable, '-m', 'mcx.props.c14b', json.dumps(reqs)], capture_output=True, text=True, env=env,
                        cwd=os.path.dirname(os.path.dirname(os.path.dirname(os.path.abspath(__file__)))), timeout=3600)
     tab = {}
@@ -547,10 +673,9 @@ def fresh_table(n, seeds, G=None):
             for i, g, out in json.loads(line[6:]):
                 for k, v in out.items():
                     tab[(i, g, int(k))] = v
-    for i in idx:
-        for g in range(G):
-            for s_ in seeds:
-                tab.setdefault((i, g, s_), 'FRESH-PROCESS-FAILED:' + p.stderr[-400:])
+    for i, g in pairs:
+        for s_ in seeds:
+            tab.setdefault((i, g, s_), 'FRESH-PROCESS-FAILED:' + p.stderr[-400:])
     return tab
 
 
@@ -586,7 +711,8 @@ def seq_case(case):
     the output of the same call made first in a fresh interpreter under the same grid and numpy seed; gv and the argument
     bytes must be unchanged after every call; earlier outputs must stay intact.  After an output has been examined it is
     overwritten (the caller owns it), so a library that hands out memoised or shared buffers is exposed by a later call."""
-    prefix, seed, tail, table = case
+    prefix, seed, tail, table = case[:4]
+    dirty = len(case) > 4 and case[4]          # part `oddgrid` of C14: freed heap buffers are filled before every call (patterns alternate)
     C = setup()
     viol = []
     kept = []
@@ -597,6 +723,8 @@ def seq_case(case):
     for pos, (i, g) in enumerate(steps):
         name = C['menu'][i][0]
         want = table[(i, g, seed)]
+        if dirty:
+            dirty_heap(pos % len(HEAP_PATTERNS), GVS[g]['sps'])
         out = call(i, seed, g)
         ncalls += 1
         got = dig(out)
@@ -659,11 +787,18 @@ D3_QUICK = ['utils.p_ase', 'utils.dec2bin', 'utils.si', 'ppm.BER.cnt', 'utils.av
             'DAC.rz', 'LASER', 'osig.w', 'PRBS', 'ppm.DSP.soft', 'FIBER.lin']
 
 
+# main-menu entries of the `oddgrid` sequences: built from bit containers (their length fits any sps) or taking instants / templates from gv.sps
+ODD_SEQ = ['DAC.nrz', 'DAC.rz', 'DAC.gauss', 'DAC.bw', 'dt:DAC.bool', 'dt:DAC.u8', 'cont:DAC.str', 'opt:DAC.rect', 'bnd:params', 'PPM_ENC', 'PRBS',
+           'esig.w', 'osig.w', 'utils.si', 'SAMPLER', 'LASER']
+
+
 def run_part_b(ctx):
     C = setup()
     M = C['menu']
-    n = len(M)
-    G = len(GVS)
+    n = C['nmain']                   # the main menu; M[n:] are the grid-adaptive entries (grid_menu)
+    nt = len(M)
+    G = NG_MAIN
+    GO = list(range(NG_MAIN, len(GVS)))     # the odd-sps grids
     cheap = [i for i in range(n) if not M[i][3]]
     seeds = sorted({ctx.seed, 0, 12345})
     s0 = ctx.seed
@@ -672,14 +807,32 @@ def run_part_b(ctx):
              f'and grid; every ordered pair of entries on the base grid (the seed of the run; cheap second entries under 2 more seeds); every entry under every ordered grid switch '
              f'g1,g2,g1; every ordered pair of cheap entries across a grid switch; every ordered triple of 36 cheap entries (quick, list D3_QUICK) / of the cheap original + dtype + length-1 + layout entries plus every quadruple of 16 '
              f'cheapest (thorough); after every call: gv snapshot and argument bytes unchanged, no output shares '
-             f'memory with an argument, earlier outputs intact; examined outputs are overwritten to expose shared/memoised buffers')
-    table = fresh_table(n, seeds)
+             f'memory with an argument, earlier outputs intact; examined outputs are overwritten to expose shared/memoised buffers; '
+             f'HEAP part: {nt - n} more entries whose waveforms are built on the ambient grid (every DAC pulse shape, SAMPLER, SDD, DSP, SYNC, GET_EYE, chains) and {len(GO)} more grids with an ODD '
+             f'number of samples per slot (sps 3, 5, 7, 9, 15); every entry under every main grid, every cheap entry and every grid entry under every odd grid, is called after freed heap buffers '
+             f'of every small size (8*k bytes, k = 1..128; 1..128 bytes; record-sized ones) were filled with nan and again after they were filled with 1e300: both outputs identical and equal to the '
+             f'fresh-process output; ODDGRID part: every ordered pair of the DAC / slot-structured entries under every odd grid and every switch even grid -> odd grid -> even grid, '
+             f'heap dirtied before every call')
+    pairs = ([(i, g) for i in range(n) for g in range(G)] + [(i, g) for i in cheap if i < n for g in GO]
+             + [(i, g) for i in range(n, nt) for g in range(len(GVS))])
+    table = fresh_table(None, seeds, pairs=pairs)
     failed = [k for k, v in table.items() if str(v).startswith('FRESH-PROCESS-FAILED')]
     if failed:
         raise RuntimeError(f'fresh-process oracle failed for {failed[:3]}: {table[failed[0]]}')
-    ctx.extra['fresh_process_oracle'] = {'entries': n, 'grids': GVS, 'seeds': seeds, 'processes': n * G,
+    ctx.extra['fresh_process_oracle'] = {'entries': nt, 'grids': GVS, 'seeds': seeds, 'processes': len(pairs),
                                          'distinct_digests': len(set(table.values()))}
-    pay = ctx.pmap('purity.single', single_case, [(i, seeds, table) for i in range(n)], horizon=300, chunk=1, recheck=0)
+    pay = ctx.pmap('purity.single', single_case, [(i, seeds, table) for i in range(nt)], horizon=300, chunk=1, recheck=0)
+    # dirty heap: every (entry, grid) of the table after each fill pattern of the freed buffers
+    ctx.pmap('purity.heap', heap_case, [(i, g, s0, table) for (i, g) in pairs], horizon=300, chunk=4, recheck=0)
+    # odd grids: ordered pairs of the DAC / slot-structured entries under every odd grid; even -> odd -> even switches; heap dirtied before every call
+    idx_ = {M[i][0]: i for i in range(nt)}
+    osel = [idx_[nm] for nm in ODD_SEQ] + [i for i in range(n, nt) if not M[i][3]]
+    og = [(((a, g),), s0, tuple((b, g) for b in osel), table, True) for g in GO for a in osel]
+    og += [((), s0, ((a, ge), (a, g), (a, ge)), table, True) for a in osel for ge in (0, 2) for g in GO]
+    og += [((), s0, ((a, g1), (a, g2), (a, g1)), table, True) for a in osel for g1 in GO for g2 in GO if g1 != g2]
+    ctx.pmap('purity.oddgrid', seq_case, og, horizon=600, chunk=2, recheck=0)
+    ctx.extra['heap_part'] = {'patterns': [p_[0] for p_ in HEAP_PATTERNS], 'cases': len(pairs), 'odd_grids': GVS_ODD, 'grid_entries': [M[i][0] for i in range(n, nt)],
+                              'oddgrid_entries': [M[i][0] for i in osel], 'oddgrid_sequences': len(GO) * len(osel) ** 2 + len(osel) * (2 * len(GO) + len(GO) * (len(GO) - 1))}
     costs = {p['name']: p['cost_ms'] for p in pay if p}
     ctx.extra['menu_cost_ms'] = costs
     ctx.extra['menu_seed_sensitive'] = sorted(p['name'] for p in pay if p and p['seed_sensitive'])
@@ -707,7 +860,7 @@ def run_part_b(ctx):
     ctx.pmap('purity.depth3+', seq_case, cases, horizon=600, chunk=4, recheck=0)
     ctx.extra['call_sequences'] = {'depth2': n * n * len(seeds), 'gvswitch': len(sw), 'gvcross': len(cx) * len(cheap), 'depth3plus': nseq}
     # as a state graph: one canonical state per grid (gv snapshot, input digests) with a self-loop per executed call
-    ctx.graph(states=G, transitions=ctx.stats.get('calls', 0))
+    ctx.graph(states=len(GVS), transitions=ctx.stats.get('calls', 0))
 
 
 # ------------------------------------------------------------------ reuse by the other properties
